@@ -4,7 +4,7 @@
 C=$(readlink -f "$1"); ID=$2; TIER=${3:-quick}
 D=$(mktemp -d /tmp/cmv-seed-XXXXXX); trap 'rm -rf "$D"' EXIT
 mkdir -p "$D/clean" "$D/mut"; cp -r /repo/src /repo/pyproject.toml "$D/clean/"; cp -r /repo/src /repo/pyproject.toml "$D/mut/"
-(cd "$D/mut" && patch -p1 -s < "$C/patch.diff") || { echo "PATCH DOES NOT APPLY"; exit 3; }
+ln -s /repo/tests "$D/mut/tests"; (cd "$D/mut" && patch -p1 -s < "$C/patch.diff") || { echo "PATCH DOES NOT APPLY"; exit 3; }
 E="PATH=/venv/bin:$PATH SEMGREP_SEND_METRICS=off SEMGREP_ENABLE_VERSION_CHECK=0"
 (cd "$D" && env $E PYTHONPATH="$D/clean/src" /venv/bin/python "$C/demo.py" >/dev/null 2>&1); echo "demo on clean: exit $?"
 (cd "$D" && env $E PYTHONPATH="$D/mut/src" /venv/bin/python "$C/demo.py" >/dev/null 2>&1); echo "demo on patched: exit $?"
